@@ -212,6 +212,23 @@ pub fn run_prop(ctx: &Ctx, sink: &mut Sink) {
             let f = std::fs::File::create(dir.join(format!("f{i:03}"))).unwrap();
             f.set_len(*s).unwrap();
         }
+        // -size is about st_size of whatever the entry is: a directory, a symbolic link (not followed: the
+        // length of its text) and a fifo take part with the size lstat reports
+        {
+            let i = sizes.len();
+            let d = dir.join(format!("f{i:03}"));
+            std::fs::create_dir(&d).unwrap();
+            sizes.push(std::fs::symlink_metadata(&d).unwrap().len());
+            let l = dir.join(format!("f{:03}", i + 1));
+            let target = "t".repeat(match suf { "c" => n.max(1) as usize, "w" => (2 * n.max(1)) as usize, _ => 10 });
+            std::os::unix::fs::symlink(&target, &l).unwrap();
+            sizes.push(std::fs::symlink_metadata(&l).unwrap().len());
+            let p = dir.join(format!("f{:03}", i + 2));
+            let c = std::ffi::CString::new(p.to_str().unwrap()).unwrap();
+            if unsafe { libc::mkfifo(c.as_ptr(), 0o644) } == 0 {
+                sizes.push(std::fs::symlink_metadata(&p).unwrap().len());
+            }
+        }
         let mut answers = vec![];
         for form in ["", "+", "-"] {
             let args: Vec<String> = vec![dir.to_str().unwrap().into(), "-mindepth".into(), "1".into(), "-size".into(), format!("{form}{n}{suf}"), "-print0".into()];
